@@ -151,15 +151,21 @@ def prop(case, res):
                         res.violation('%s|alternative-check-accepted-by-is_valid' % key, 'c05', case, {'number': v, 'also-valid': w})
                         break
     # (c) mutated payload completed with the generated check
-    for mut in case.get('muts') or []:
-        i, c = mut
+    mutlist = case.get('muts') or []
+    if case.get('joint') and mutlist:
+        w0 = list(v)
+        for i, c in mutlist:
+            w0[i] = c
+        mutlist = [(mutlist[-1][0], mutlist[-1][1], ''.join(w0))]
+    for mut in mutlist:
+        i, c = mut[0], mut[1]
         a, b = t['sl']
         n = len(v)
         a2 = a if a >= 0 else n + a
         b2 = n if b is None else (b if b >= 0 else n + b)
         if i >= n or a2 <= i < b2 or gen.cls(v[i]) is None or c not in gen.cls(v[i]):
             continue
-        w = v[:i] + c + v[i + 1:]
+        w = mut[2] if len(mut) > 2 else v[:i] + c + v[i + 1:]
         g2 = core.out(fn, t['arg'](w))
         res.evals += 1
         if g2[0] != 'ok' or not isinstance(g2[1], str):
@@ -200,9 +206,22 @@ def shard(a):
     valid = gen.valid_numbers(name, **t['vopts'])
     mut = st.lists(st.tuples(st.integers(0, 24), st.sampled_from(ALNUM + string.ascii_lowercase)), max_size=3)
     strat = st.fixed_dictionaries({'t': st.just(t['id']), 'v': valid, 'muts': mut})
-    for v in gen.pool(name, **t['vopts'])[:a['npool']]:
+    for v in gen.pool(name, **t['vopts'])[:a['npool']] + gen.edge_pool(name, **t['vopts']):
         prop({'t': t['id'], 'v': v, 'muts': []}, res)
     core.drive(prop, strat, a['n'], (a['seed'], 'C05', t['id']), res, shrink_skip=a['known'])
+    # clause (c) systematically: the last two payload digits of one valid number run through all 100 values, so that every
+    # value of the generated check (98, 10 -> X, 0, ...) is produced at least once
+    base = [v for v in gen.pool(name, **t['vopts']) if not t['applies'] or t['applies'](v)][:1]
+    for v in base:
+        n = len(v)
+        a0, b0 = t['sl']
+        a0 = a0 if a0 >= 0 else n + a0
+        b0 = n if b0 is None else (b0 if b0 >= 0 else n + b0)
+        pos = [i for i in range(n) if v[i].isdigit() and not a0 <= i < b0][-2:]
+        if len(pos) == 2:
+            for x in string.digits:
+                for y in string.digits:
+                    prop({'t': t['id'], 'v': v, 'muts': [[pos[0], x], [pos[1], y]], 'joint': True}, res)
     return res
 
 
